@@ -138,6 +138,8 @@ func mkExchange(r *Rng, ver version.Version, o exOpts) *sxg.Exchange {
 	method := o.method
 	if method == "" {
 		method = "GET"
+	} else if method == "<empty>" { // an exchange whose method really is the empty string
+		method = ""
 	}
 	status := o.status
 	if status == 0 {
@@ -353,7 +355,7 @@ func genC08(r *Rng, tier string) []Case {
 		o := exOpts{contentType: r.Chance(4, 5), extraResp: randExtra(r, r.Intn(5)), extraReq: randExtra(r, r.Intn(3)),
 			status: []int{200, 200, 404, 301, 99, 1000, 0, 599}[r.Intn(8)], payloadLen: r.Intn(40)}
 		if r.Chance(1, 10) {
-			o.method = []string{"HEAD", "POST", ""}[r.Intn(3)]
+			o.method = []string{"HEAD", "POST", "<empty>", "get", "PATCH"}[r.Intn(5)]
 		}
 		if r.Chance(1, 25) { // header values / names across CBOR length classes
 			o.extraResp = append(o.extraResp, [2]string{"X-Long", longv[:[]int{255, 256, 65535, 65536, 65537}[r.Intn(5)]]})
@@ -494,6 +496,9 @@ func genC02(r *Rng, tier string) []Case {
 	}
 	for i := 0; i < 6; i++ { // one Signer, re-keyed between signatures
 		cs = append(cs, Case{"sxg_signer_rekey", []Sx{Zi(int64(i)), Zi(int64(i / 2))}})
+	}
+	for i := 0; i < 3; i++ { // ... and given a renewed certificate for the same key
+		cs = append(cs, Case{"sxg_signer_rekey", []Sx{Zi(int64(i)), Zi(int64(6 + i))}})
 	}
 	// request URIs that ReadExchange refuses (Write must refuse them too) and odd-looking https URLs
 	for _, ver := range sxgVersions {
@@ -844,7 +849,7 @@ func genC09(r *Rng, tier string) []Case {
 				one(ver, def(), d, x, "https://example.com/v", [][2]int64{{d - 1, 0}, {d - 1, 999999999}, {d, 0}, {d, 1}, {x - 1, 999999999}, {x, 0}, {x, 1}, {x + 1, 0}, {(d + x) / 2, 0}})
 			}
 			// methods and stateful request headers
-			for _, m := range []string{"GET", "HEAD", "POST", "get", "PUT", "OPTIONS", ""} {
+			for _, m := range []string{"GET", "HEAD", "POST", "get", "PUT", "OPTIONS", "<empty>"} {
 				o := def()
 				o.method = m
 				one(ver, o, d, d+100, "https://example.com/v", mid)
